@@ -804,7 +804,16 @@ func (t *Term) write(b *strings.Builder) {
 		if np > 0 {
 			for _, p := range t.Args[nv+1:] {
 				b.WriteString(" :pattern (")
-				p.write(b)
+				if p.Op == "mpat" {
+					for i, a := range p.Args {
+						if i > 0 {
+							b.WriteString(" ")
+						}
+						a.write(b)
+					}
+				} else {
+					p.write(b)
+				}
 				b.WriteString(")")
 			}
 			b.WriteString(")")
